@@ -77,10 +77,48 @@ ConsumeChunked ==
        [] OTHER -> bad' = <<"UnknownEvent", <<e.e>> >> /\ UNCHANGED <<svars, ref, failedC>>
   /\ k' = k + 1 /\ UNCHANGED <<ti, chunkedv>>
 
+\* ---- plain mode, envelope validation (second, weaker binding) ------------------------
+\* Used only for a trace that the exact binding below rejects because an event does not fit
+\* the specification's RECEIVE PATTERN (e.g. a wrapper that receives before it has to, or
+\* scans its buffer for the line end instead of taking one byte at a time).  C11 fixes what
+\* is returned - exactly n bytes or nothing after a failed receive, whole lines, and
+\* delivered \o buffer = received at every return (nothing lost, duplicated, reordered; a
+\* timeout loses no buffered data) - not when recv() is called.
+EndsCrLf(d) == Len(d) >= 2 /\ d[Len(d) - 1] = 13 /\ d[Len(d)] = 10
+CrLfInside(d) == \E i \in 1 .. Len(d) - 2 : d[i] = 13 /\ d[i + 1] = 10
+ConsumeEnvelopePlain ==
+  /\ ~Chunked
+  /\ ti <= Len(Traces) /\ Tr.env /\ bad = << >> /\ k <= Len(Tr.ev)
+  /\ LET e == Ev IN
+     CASE e.e = "recv" ->
+            /\ IF e.kind = "data"
+               THEN /\ rcvd' = rcvd \o e.data /\ UNCHANGED failedC
+                    /\ bad' = IF Len(e.data) <= e.bufsize /\ e.data # << >> THEN << >> ELSE <<"RecvTooLong", <<Len(e.data), e.bufsize>> >>
+               ELSE /\ failedC' = TRUE /\ UNCHANGED rcvd /\ bad' = << >>
+            /\ UNCHANGED <<net, closed, buffer, partial, call, last, delivered, ref>>
+       [] e.e = "call" ->
+            /\ call' = [NoCall EXCEPT !.op = e.op, !.n = e.n] /\ failedC' = FALSE
+            /\ bad' = IF call.op \in {"none", "init"} THEN << >> ELSE <<"CallWhileBusy", <<call.op>> >>
+            /\ UNCHANGED <<net, closed, buffer, partial, last, rcvd, delivered, ref>>
+       [] e.e \in {"ret", "retdone"} ->
+            LET d2 == delivered \o e.data
+                all == d2 \o e.buffer
+            IN
+            /\ delivered' = d2 /\ buffer' = e.buffer /\ call' = NoCall
+            /\ bad' = IF e.op = "read" /\ ~(Len(e.data) = call.n \/ (e.data = << >> /\ failedC))
+                            THEN <<"WrongSize", <<call.n, Len(e.data), failedC>> >>
+                      ELSE IF e.op = "readline" /\ ~failedC /\ ~EndsCrLf(e.data) THEN <<"LineNotTerminated", <<Len(e.data)>> >>
+                      ELSE IF e.op = "readline" /\ CrLfInside(e.data) THEN <<"LinePastTerminator", <<Len(e.data)>> >>
+                      ELSE IF all # rcvd THEN <<"BytesLostOrInvented", <<Len(all), Len(rcvd)>> >>
+                      ELSE << >>
+            /\ UNCHANGED <<net, closed, partial, last, rcvd, ref, failedC>>
+       [] OTHER -> bad' = <<"UnknownEvent", <<e.e>> >> /\ UNCHANGED <<svars, ref, failedC>>
+  /\ k' = k + 1 /\ UNCHANGED <<ti, chunkedv>>
+
 Consume ==
   /\ ~Chunked
   /\ UNCHANGED <<ref, failedC>>
-  /\ ti <= Len(Traces) /\ bad = << >> /\ k <= Len(Tr.ev)
+  /\ ti <= Len(Traces) /\ ~Tr.env /\ bad = << >> /\ k <= Len(Tr.ev)
   /\ LET e == Ev IN
      IF ~Fits(e)
      THEN /\ bad' = <<"EventDoesNotFit", <<e.e, e.op, call.op, Len(buffer), call.n, call.failed>> >>
@@ -107,7 +145,7 @@ Consume ==
 \* silent: one character of a pending readline
 Silent ==
   /\ ~Chunked
-  /\ ti <= Len(Traces) /\ bad = << >>
+  /\ ti <= Len(Traces) /\ ~Tr.env /\ bad = << >>
   /\ LineStep
   /\ UNCHANGED tvars
 
@@ -127,6 +165,6 @@ TInit ==
   /\ SInit(<< >>)
 
 \* Consume must not run ahead of a pending silent step
-TNext == Silent \/ (~ENABLED Silent /\ Consume) \/ ConsumeChunked \/ Verdict
+TNext == Silent \/ (~ENABLED Silent /\ Consume) \/ ConsumeChunked \/ ConsumeEnvelopePlain \/ Verdict
 TSpec == TInit /\ [][TNext]_allvars
 =============================================================================
